@@ -22,3 +22,12 @@ class CklRuntimeError(Exception):
             return f"{self.value}: {self.msg} ({self.pos})"
         else:
             return f"{self.value}: {self.msg}"
+
+
+def error_value_text(value):
+    """Text of an error value for the hosts' error report; values without a
+    string conversion (stream objects) are shown in their rendered form."""
+    try:
+        return str(value.asString().value)
+    except CklRuntimeError:
+        return str(value)
